@@ -8,6 +8,7 @@ import Driver.EventQueue
 import Driver.Dispatch
 import Driver.Container
 import Driver.HashSet
+import Driver.Str
 
 def main (args : List String) : IO UInt32 := do
   match args with
@@ -21,4 +22,5 @@ def main (args : List String) : IO UInt32 := do
   | ["dispatch"] => Driver.Dispatch.main; return 0
   | ["container"] => Driver.Container.main; return 0
   | ["hashset"] => Driver.HashSet.main; return 0
+  | ["str"] => Driver.Str.main; return 0
   | _ => IO.eprintln "usage: driver <area>"; return 2
